@@ -93,3 +93,15 @@ HX int h_power(int kind, double re, double im, double nr, int ni, double* out) {
     }
     H_END
 }
+
+// round: kind 0 round(real) 1 round(cmplx) 2 round(arr_real)[0] 3 round(arr_cmplx)[0]
+HX int h_round(int kind, double re, double im, double* out) {
+    H_TRY
+    switch (kind) {
+    case 0: out[0] = dsplib::round(real_t(re)); out[1] = 0; return 1;
+    case 1: { cmplx_t r = dsplib::round(cmplx_t{re, im}); out[0] = r.re; out[1] = r.im; return 1; }
+    case 2: { arr_real a = {re, 1.5}; arr_real r = round(a); out[0] = r[0]; out[1] = 0; return r.size(); }
+    default: { arr_cmplx a = {cmplx_t{re, im}, cmplx_t{0.5, -0.5}}; arr_cmplx r = round(a); out[0] = r[0].re; out[1] = r[0].im; return r.size(); }
+    }
+    H_END
+}
